@@ -640,16 +640,51 @@ def a2_free_list_provenance(prog):
         f = fs[0]
         body = f.body
         r.inst('Allocator::clone_from free')
-        cf = [(b, t) for b, t in body.calls(lambda c: c['name'] in ('clone_from', 'clone') and c.get('trait') == 'core::clone::Clone')]
-        ok = any((receiver_name(prog, body, t['args'][-1]) or '').endswith('source.free') and body.must_pass(0, [b], body.return_blocks()) for b, t in cf)
-        others = []
-        for g in [f] + f.closures():
-            for b, t in g.body.calls(lambda c: 'VecDeque' in c['path'] and c['name'] in ('push_back', 'push_front', 'clear', 'extend', 'insert', 'retain', 'truncate', 'pop_front', 'pop_back')):
-                others.append((g, t))
-        if not ok:
-            r.viol('A2', 'clone_from/free-not-copied', f.loc(), 'Allocator::clone_from does not copy the source free list verbatim (clone_from(&source.free))')
-        for g, t in others:
-            r.viol('A2', 'clone_from/free-rebuilt', g.loc(t['ln']), 'Allocator::clone_from rebuilds the free list element by element (%s): order of reuse differs from the source' % t['f']['name'])
+        # on every returning path the last thing done to `self.free` leaves it equal to `source.free`: a wholesale
+        # `clone_from(&source.free)` / `= source.free.clone()`, or `clear()` where the path found `source.free` empty
+        E = pathsem.analyse(prog, f)
+        S = pathsem.strip_refs
+        me = ('p', 1, body.local_name(1) or 'self')
+        p_src = body.arg_local('source')
+        src = ('p', p_src, 'source') if p_src else None
+
+        def is_free_of(t, who):
+            t = S(t)
+            return who is not None and pathsem.is_field_of(t, 'entity::allocator::Allocator', fi) and S(t[1]) in (who, ('d', who))
+        bad = None
+        if E.truncated or not [p for p in E.paths if p.ended == 'return']:
+            bad = ('free-not-copied', None, 'Allocator::clone_from not analysable')
+        for p in E.paths:
+            if p.ended != 'return' or bad:
+                continue
+            ops = []
+            for e in p.events:
+                if e['k'] == 'call' and e.get('vals') and is_free_of(e['vals'][0], me):
+                    if e['name'] == 'clone_from' and e['f'].get('trait') == 'core::clone::Clone':
+                        ops.append(('copy' if len(e['vals']) > 1 and is_free_of(e['vals'][1], src) else 'other', e))
+                    elif 'VecDeque' in e['path'] and e['name'] in ('push_back', 'push_front', 'clear', 'extend', 'insert', 'retain', 'truncate', 'pop_front', 'pop_back', 'append', 'drain', 'remove', 'swap_remove_back', 'swap_remove_front', 'resize', 'split_off', 'retain_mut', 'extend_from_slice'):
+                        ops.append((e['name'], e))
+                    elif e['name'] == 'extend' and e['f'].get('trait') == 'core::iter::Extend':
+                        ops.append(('extend', e))
+                elif e['k'] == 'store' and not e.get('synthetic') and is_free_of(e['loc'], me):
+                    v = S(e['value'])
+                    ops.append(('copy' if isinstance(v, tuple) and v[0] == 'call' and v[1].rsplit('::', 1)[-1] == 'clone' and v[2] and is_free_of(v[2][0], src) else 'other', e))
+            if not ops:
+                bad = ('free-not-copied', None, 'Allocator::clone_from does not copy the source free list verbatim (clone_from(&source.free)) on some path')
+                continue
+            kind, e = ops[-1]
+            if kind == 'copy':
+                continue
+            src_empty = any(isinstance(a_, tuple) and a_[0] == 'call' and a_[1].rsplit('::', 1)[-1] == 'is_empty' and a_[2] and is_free_of(a_[2][0], src) and v is True for a_, v in p.conds) or \
+                any(isinstance(a_, tuple) and a_[0] == 'bin' and a_[1] == 'Eq' and ('c', 0) in a_[2:] and any(isinstance(x, tuple) and x[0] == 'call' and x[1].rsplit('::', 1)[-1] == 'len' and x[2] and is_free_of(x[2][0], src) for x in a_[2:]) and v is True for a_, v in p.conds)
+            if kind == 'clear' and src_empty:
+                continue
+            if any(k_ == 'copy' for k_, _ in ops) or kind in ('push_back', 'push_front', 'extend', 'insert'):
+                bad = ('free-rebuilt', e.get('ln'), 'Allocator::clone_from rebuilds the free list element by element (%s): order of reuse differs from the source' % kind)
+            else:
+                bad = ('free-not-copied', e.get('ln'), 'Allocator::clone_from does not copy the source free list verbatim (clone_from(&source.free)): a path ends with `%s` on the free list' % kind)
+        if bad:
+            r.viol('A2', 'clone_from/' + bad[0], f.loc(bad[1]), bad[2])
     else:
         r.viol('A2', 'clone_from/missing', '-', 'Allocator::clone_from not found')
     # writer: SerializeFree iterates the free queue itself (its order is what the reader restores)
